@@ -67,11 +67,20 @@ static sexp_uint_t hash_one (sexp ctx, sexp obj, sexp_uint_t bound, sexp_sint_t 
         /* if the field_base is 0, skip to the value */
         if ((sexp)p == obj) p=(sexp*)p0;
         /* hash uvector data (otherwise strings all hash to the same value) */
-        if (sexp_bytesp(obj) || sexp_uvectorp(obj) || sexp_bignump(obj)) {
+        if (sexp_bytesp(obj) || sexp_uvectorp(obj)) {
           p_right = ((char*)p + sexp_type_num_slots_of_object(t, obj)*sizeof(sexp));
           right_size = ((char*)obj + sexp_type_size_of_object(t, obj)) - p_right;
           for (i=0; i<right_size; i++) {acc *= FNV_PRIME; acc ^= p_right[i];}
         }
+#if SEXP_USE_BIGNUMS
+        /* hash the value of a bignum, not its representation: equal? */
+        /* bignums may differ in length (spare high words) */
+        else if (sexp_bignump(obj)) {
+          acc ^= (sexp_uint_t) sexp_bignum_sign(obj);
+          len = sexp_bignum_hi(obj);
+          for (i=0; i<len; i++) {acc *= FNV_PRIME; acc ^= sexp_bignum_data(obj)[i];}
+        }
+#endif
         /* hash eq-object slots */
         len = sexp_type_num_eq_slots_of_object(t, obj);
         if (len > 0) {
